@@ -101,7 +101,16 @@ type Instance struct {
 	snapMtx   sync.Mutex
 	silSnap   []byte // snapshot taken by the last maintenance run
 	nflogSnap []byte
+
+	// cluster mode (nil / zero in single-instance scenarios)
+	position  func() int // this instance's view of its position among the peers
+	clustered bool
 }
+
+// settledPeer is the notify.Peer of cluster mode: the mesh counts as settled.
+type settledPeer struct{}
+
+func (settledPeer) WaitReady(context.Context) error { return nil }
 
 type scripted struct {
 	inst     *Instance
@@ -135,6 +144,11 @@ func (n *scripted) Notify(ctx context.Context, alerts ...*alert.Alert) (bool, er
 	at.Deadline, _ = ctx.Deadline()
 	for _, a := range alerts {
 		at.Alerts = append(at.Alerts, AttemptAlert{Key: ref.LabelKey(mapOf(a.Labels)), Resolved: a.Resolved(), Start: a.StartsAt, End: a.EndsAt})
+	}
+	if n.inst.clustered {
+		if es, err := n.inst.nflog.Query(nflog.QGroupKey(at.GroupKey), nflog.QReceiver(&nflogpb.Receiver{GroupName: n.receiver, Integration: "webhook", Idx: uint32(n.idx)})); err == nil && len(es) == 1 {
+			at.Entry = &NflogEntry{Found: true, Timestamp: es[0].Timestamp.AsTime(), Firing: append([]uint64(nil), es[0].FiringAlerts...), Resolved: append([]uint64(nil), es[0].ResolvedAlerts...)}
+		}
 	}
 	s.mtx.Lock()
 	b, ok := s.behave[fmt.Sprintf("%s/%d", n.receiver, n.idx)]
@@ -194,7 +208,14 @@ func (s *Sim) errf(format string, a ...any) {
 
 // newInstance builds the long-lived components (app.setup). Snapshots may be nil.
 func (s *Sim) newInstance(idx, epoch int, spec *Config, silSnap, nflogSnap []byte) (*Instance, error) {
+	return s.newInstanceWith(idx, epoch, spec, silSnap, nflogSnap, nil)
+}
+
+func (s *Sim) newInstanceWith(idx, epoch int, spec *Config, silSnap, nflogSnap []byte, prepare func(*Instance)) (*Instance, error) {
 	in := &Instance{sim: s, idx: idx, epoch: epoch, reg: prometheus.NewRegistry(), startTime: time.Now(), stopc: make(chan struct{})}
+	if prepare != nil {
+		prepare(in)
+	}
 	o := s.sc.Opts
 	retention := time.Duration(o.Retention) * time.Second
 
@@ -319,13 +340,20 @@ func (in *Instance) reload(spec *Config) error {
 	}
 	newInh := inhibit.NewInhibitor(in.alerts, conf.InhibitRules, nopLog, eventrecorder.NopRecorder())
 	wait := func() time.Duration { return 0 }
+	var peer notify.Peer
+	if in.clustered {
+		// app/cluster.go clusterWait: one peer timeout per position
+		pt := time.Duration(in.sim.sc.Opts.PeerTimeout) * time.Second
+		wait = func() time.Duration { return time.Duration(in.position()) * pt }
+		peer = settledPeer{}
+	}
 	timeoutFunc := func(d time.Duration) time.Duration {
 		if d < notify.MinTimeout {
 			d = notify.MinTimeout
 		}
 		return d + wait()
 	}
-	pipeline := in.pbuilder.New(receivers, wait, newInh, in.silencer, intervener, in.gmarker, in.nflog, nil)
+	pipeline := in.pbuilder.New(receivers, wait, newInh, in.silencer, intervener, in.gmarker, in.nflog, peer)
 	in.api.Update(conf, func(ctx context.Context, labels model.LabelSet) {
 		in.inh.Mutes(ctx, labels)
 		in.silencer.Mutes(ctx, labels)
